@@ -633,11 +633,17 @@ class FifoGen(Obj):
 
 
 class ParmapperAsyncIter(Unit):
+    """ParmapperAsync.__iter__ (async worker function on a helper thread's event loop).  [C05] The elements are only handed to fifo_stream once the helper's loop is
+    known to be SERVING (the `ready` flag, set by the helper after it has entered the user's async context managers): if the helper ends before that -- a context
+    manager failing to enter -- its error is raised to the consumer (Thread.join re-raises it) instead of coroutines being submitted to a loop nobody runs (the
+    consumer would wait for their futures forever).  On every exit path the helper thread has been joined; the stop flag is set on every path on which the helper
+    was serving."""
     prop = 'C05'
     file = FS
     qual = 'ParmapperAsync.__iter__'
-    canaries = (('helper thread not joined', '            worker.join()', '            pass', 'joined'),
-                ('stop flag not set', '            to_stop.set()\n            worker.join()', '            worker.join()', 'stop flag'))
+    canaries = (('helper thread not joined', '            to_stop.set()\n            worker.join()', '            to_stop.set()', 'joined'),
+                ('stop flag not set', '            to_stop.set()\n            worker.join()', '            worker.join()', 'stop flag'),
+                ('pre-fix defect: elements are submitted without knowing that the helper loop runs', '        while not ready.wait(0.01):', '        while False:', 'serving'))
 
     def setup(self, ex):
         st = St()
@@ -648,9 +654,12 @@ class ParmapperAsyncIter(Unit):
                                                        _func_kwargs=KwPack(self.kw), _async_context=KwPack(self.actx), _name=z3.String('name'))
         st.env['self'] = self.me
         self.evs = []
+        st.ghost['helper_died'] = z3.BoolVal(False)
+        self.helper_exc = z3.Const('helper_failure', Val)
+        st.assume(V.isinst(self.helper_exc, 'BaseException'), *V.cls_facts(self.helper_exc))
 
         def mkev(e, s, a, k, n):
-            ev = Event(e, 'to_stop')
+            ev = Event(e, 'event#%d' % len(self.evs))
             s = s.fork()
             ev.init(s)
             self.evs.append(ev)
@@ -658,64 +667,139 @@ class ParmapperAsyncIter(Unit):
         ex.globals['threading.Event'] = Fn(mkev)
         ex.globals['asyncio.new_event_loop'] = Fn(lambda e, s, a, k, n: [('ok', s, fresh('loop'))])
         ex.globals['Thread'] = ThreadCtor()
-        ex.globals['fifo_stream'] = Fn(lambda e, s, a, k, n: [('ok', s, FifoGen(e, a, k))], name='fifo_stream')
+
+        def fifo(e, s, a, k, n):
+            ready = [v for v in self.evs if v is not self.stop_flag(e, s)]
+            e.oblige(s, f'line {n.lineno}: [C05] fifo_stream is only started once the helper loop is SERVING (its ready flag was seen set): otherwise every submitted coroutine sits on a loop nobody runs and the consumer waits forever',
+                     z3.And(z3.BoolVal(len(ready) == 1), ready[0].get(s, 'flag'), z3.Not(s.ghost['helper_died'])) if len(ready) == 1 else z3.BoolVal(False))
+            return [('ok', s, FifoGen(e, a, k))]
+        ex.globals['fifo_stream'] = Fn(fifo, name='fifo_stream')
         return st
+
+    def stop_flag(self, ex, st):
+        th = [o for o in ex.objs.values() if isinstance(o, ThreadObj)]
+        if len(th) == 1:
+            args = unbox_handle(ex, th[0].args)
+            if isinstance(args, PyTuple) and args.items:
+                return unbox_handle(ex, args.items[0])
+        return None
 
     def on_thread_start(self, ex, st, t, node):
         args = unbox_handle(ex, t.args)
         ok = isinstance(t.target, Closure) and t.target.node.name == '_do_async' and isinstance(args, PyTuple) and len(args.items) == 2 \
-            and len(self.evs) == 1 and unbox_handle(ex, args.items[0]) is self.evs[0]
+            and unbox_handle(ex, args.items[0]) in self.evs
         ex.oblige(st, f'line {node.lineno}: spawn binding: the helper thread runs _do_async(<this stop flag>, loop)', z3.BoolVal(bool(ok)))
+
+    def on_is_alive(self, ex, st, t, node):
+        # the helper may have ended by itself (an async context manager failed to enter): then it never sets `ready`
+        alive = fresh('helper_alive', z3.BoolSort())
+        s = st.fork()
+        s.ghost['helper_died'] = z3.Or(s.ghost['helper_died'], z3.Not(alive))
+        return [('ok', s, alive)]
+
+    def on_thread_join(self, ex, st, t, node):
+        # mpservice's Thread.join re-raises what ended the thread (C12: unit Thread.join)
+        s_ok = st.fork()
+        t.set(s_ok, 'joined', z3.BoolVal(True))
+        s_ok.ghost['#blocking'] = s_ok.ghost.get('#blocking', ()) + ((node.lineno, 'join thread', ()),)
+        s_bad = s_ok.fork()
+        return [('ok', s_ok, NONE), ('raise', s_bad, self.helper_exc)]
+
+    @property
+    def loops(self):
+        def inv(s, ex):
+            th = [o for o in ex.objs.values() if isinstance(o, ThreadObj)]
+            stop = self.stop_flag(ex, s)
+            return z3.And(z3.BoolVal(len(th) == 1 and stop is not None), th[0].get(s, 'started'), z3.Not(th[0].get(s, 'joined')), z3.Not(stop.get(s, 'flag')), z3.Not(s.ghost['helper_died'])) if len(th) == 1 and stop is not None else z3.BoolVal(False)
+        return {0: LoopSpec(inv=inv, keep=('loop', 'to_stop', 'ready', 'worker', '_do_async'), keep_ghost=('helper_died',))}
 
     def post(self, ex, outs):
         for k, s, p in outs:
             th = [o for o in ex.objs.values() if isinstance(o, ThreadObj)]
-            ok = len(th) == 1 and len(self.evs) == 1
-            ex.oblige(s, f'exit({k}): the stop flag is set and the helper thread has been joined on every exit path [C05]',
-                      z3.And(z3.BoolVal(ok), self.evs[0].get(s, 'flag'), th[0].get(s, 'started'), th[0].get(s, 'joined')) if ok else z3.BoolVal(False))
+            stop = self.stop_flag(ex, s)
+            ok = len(th) == 1 and stop is not None
+            ex.oblige(s, f'exit({k}): the helper thread has been joined on every exit path, and the stop flag is set unless the helper had already ended by itself [C05]',
+                      z3.And(z3.BoolVal(ok), th[0].get(s, 'started'), th[0].get(s, 'joined'), z3.Or(stop.get(s, 'flag'), s.ghost['helper_died'])) if ok else z3.BoolVal(False))
+            if k == 'raise':
+                ex.oblige(s, 'exit(raise): when the helper ended before it was ready, the consumer gets an error (what ended the helper, or RuntimeError) -- never a silent hang',
+                          z3.Implies(s.ghost['helper_died'], V.isinst(p, 'BaseException')))
 
 
 class DoAsyncMain(Unit):
-    """ParmapperAsync.__iter__.<locals>._do_async.<locals>.main: the helper coroutine ends once the stop flag is set (polls every second)."""
+    """ParmapperAsync.__iter__.<locals>._do_async.<locals>.main -- the helper coroutine: enters the user's async context managers (each may FAIL to enter: then the
+    coroutine ends with that error and `ready` is never set -- the consumer side notices the dead helper: unit ParmapperAsync.__iter__); once all are entered it
+    sets `ready` and only then serves, until the stop flag is set (polled every second); the contexts are left on every path."""
     prop = 'C05'
     file = FS
     qual = 'ParmapperAsync.__iter__.<locals>._do_async.<locals>.main'
     ignore_calls = ('asyncio.sleep',)
     unreachable_ok = ('await asyncio.sleep',)       # under stop the polling loop exits before sleeping again
-    ignore_stmts = (r'for cm in self\._async_context\.values\(\):.*',)
-    canaries = (('never checks the flag', 'if to_stop.is_set():', 'if False:', ''),)
+    canaries = (('never checks the flag', 'if to_stop.is_set():', 'if False:', ''),
+                ('ready announced before the contexts are entered', '                    ready.set()\n', '', 'ready'),)
 
     def setup(self, ex):
         st = St()
         self.ev = Event(ex, 'to_stop')
         self.ev.init(st, is_set=True)          # under stop: flag set and stable
+        self.ready = Event(ex, 'ready')
+        self.ready.init(st)
         st.env['to_stop'] = self.ev
-        st.cells['self'] = Rec(ex, 'self', immutable=True)
+        st.cells['ready'] = self.ready
+        st.ghost['entered'] = z3.IntVal(0)
+        st.ghost['left'] = z3.BoolVal(False)
+        self.n_ctx = z3.Int('n_async_contexts')
+        st.assume(self.n_ctx >= 0)
+        self.enter_exc = z3.Const('context_enter_failure', Val)
+        st.assume(V.isinst(self.enter_exc, 'Exception'), *V.cls_facts(self.enter_exc))
+        unit = self
 
-        class Stack(Obj):
-            def havoc(self, ex, st):
+        class Contexts(Obj):
+            """self._async_context.values(): n user-supplied async context managers"""
+            def havoc(self_, e, s):
                 pass
 
-            def cm_enter(self, ex, st, node):
-                return [('ok', st, self)]
+            def iterate(self_, e, s, node):
+                raise Unsupported('contexts are only iterated by the for loop')
 
-            def cm_exit(self, ex, st, node, outcome):
-                return [('ok', st, False)]
+        from pyvc.models import Source
+        self.ctxs = Source(ex, 'async_contexts')
+        self.ctxs.init(st)
+        st.cells['self'] = Rec(ex, 'self', immutable=True).init(st, _async_context=Rec(ex, 'async_context', immutable=True, methods={'values': Fn(lambda e, s, a, k, n: [('ok', s, self.ctxs)])}))
+
+        class Stack(Obj):
+            def havoc(self_, e, s):
+                pass
+
+            def cm_enter(self_, e, s, node):
+                return [('ok', s, self_)]
+
+            def cm_exit(self_, e, s, node, outcome):
+                s = s.fork()
+                s.ghost['left'] = z3.BoolVal(True)
+                return [('ok', s, False)]
+
+            def m_enter_async_context(self_, e, s, a, k, n):
+                s1 = s.fork()
+                s1.ghost['entered'] = s1.ghost['entered'] + 1
+                return [('ok', s1, fresh('entered_context')), ('raise', s.fork(), unit.enter_exc)]
         ex.globals['contextlib.AsyncExitStack'] = Fn(lambda e, s, a, k, n: [('ok', s, Stack(e, 'stack'))])
         return st
 
     @property
     def loops(self):
-        sp = LoopSpec(inv=lambda s, ex: self.ev.get(s, 'flag'))
+        ctx = LoopSpec(inv=lambda s, ex: z3.And(z3.Not(self.ready.get(s, 'flag')), s.ghost['entered'] == z3.Length(self.ctxs.seen(s)), z3.Not(s.ghost['left']), z3.Not(self.ctxs.done(s)), z3.Not(self.ctxs.failed(s))), keep=('stack',))
+        sp = LoopSpec(inv=lambda s, ex: z3.And(self.ev.get(s, 'flag'), self.ready.get(s, 'flag'), self.ctxs.done(s), s.ghost['entered'] == z3.Length(self.ctxs.seen(s)), z3.Not(s.ghost['left'])), keep=('stack',))
         sp.on_backedge = lambda s, ex: ex.oblige(s, 'under stop: the polling loop does not iterate again once the flag is set', False)
-        return {0: sp, 1: sp}
+        return {0: ctx, 1: sp, 2: sp}
 
     def post(self, ex, outs):
         for k, s, p in outs:
+            ex.oblige(s, 'exit: the contexts that were entered are left (the exit stack is closed) on every path', s.ghost['left'])
             if k == 'raise':
-                ex.oblige(s, 'exit: does not raise', False)
+                ex.oblige(s, 'exit(raise): only what a context manager raised on entering -- and then `ready` was never announced (the consumer side sees a helper that ended before it was ready)',
+                          z3.And(p == self.enter_exc, z3.Not(self.ready.get(s, 'flag'))))
             else:
-                ex.oblige(s, 'exit: reached (the coroutine ends under stop)', True)
+                ex.oblige(s, 'exit: ends under stop, after having announced `ready` only once ALL contexts were entered', z3.And(self.ready.get(s, 'flag'), self.ctxs.done(s), s.ghost['entered'] == z3.Length(self.ctxs.seen(s))))
 
 
 UNITS += [SyncIterWorkerMain, SyncIterIter, ParmapperAsyncIter, DoAsyncMain]
